@@ -19,7 +19,8 @@ func init() {
 }
 
 type c10Notif struct {
-	Kind    string `json:"kind"` // progress | log | custom
+	Method  string `json:"method,omitempty"` // for kind "own": the caller's private method
+	Kind    string `json:"kind"`             // progress | log | custom | own
 	Size    int    `json:"size"`
 	Meta    bool   `json:"meta"`
 	SleepMs int    `json:"sleep_ms"`
@@ -83,6 +84,9 @@ func runC10(c *Ctx) {
 					err = sender.SendLogMessage("info", msg)
 				default:
 					em.method = "notifications/custom"
+					if n.Kind == "own" && n.Method != "" {
+						em.method = n.Method
+					}
 					p := map[string]interface{}{"tag": fmt.Sprintf("%s#%d", nonce, i), "pad": pad, "n": float64(i), "nested": map[string]interface{}{"a": []interface{}{1.0, "two", nil}}}
 					em.params = map[string]interface{}{}
 					for k, v := range p {
@@ -121,6 +125,9 @@ func runC10(c *Ctx) {
 	}
 	received := map[string][]got{}
 	returned := map[string]bool{}
+	inHandler := map[string]int{}
+	overlapped := map[string]bool{}
+	slowHandler := false
 	tagOf := func(n *mcp.JSONRPCNotification) string {
 		f := n.Params.AdditionalFields
 		if v, ok := f["tag"].(string); ok {
@@ -145,8 +152,19 @@ func runC10(c *Ctx) {
 			}
 			c.mu.Lock()
 			received[nonce] = append(received[nonce], got{method: n.Method, params: n.Params.AdditionalFields, meta: n.Params.Meta, late: returned[nonce]})
+			inHandler[nonce]++
+			if inHandler[nonce] > 1 {
+				overlapped[nonce] = true
+			}
 			c.mu.Unlock()
-			s.Yield("client-handler")
+			if slowHandler {
+				s.Sleep(time.Millisecond)
+			} else {
+				s.Yield("client-handler")
+			}
+			c.mu.Lock()
+			inHandler[nonce]--
+			c.mu.Unlock()
 			return nil
 		}
 	}
@@ -170,23 +188,66 @@ func runC10(c *Ctx) {
 	if c.Tier == "thorough" {
 		maxN = 40
 	}
-	type callT struct {
-		nonce string
-		plan  []c10Notif
-		err   error
-		got   string
+	// a burst longer than any queue a client may put between its stream reader and its handlers,
+	// with handlers slower than the reader
+	burst := t.Bool(8)
+	slowHandler = burst || t.Bool(15)
+	if burst {
+		maxN = 70 + t.Draw(130)
 	}
+	c.SetPlan("burst", burst)
+	c.SetPlan("slow_handler", slowHandler)
+	type callT struct {
+		nonce     string
+		plan      []c10Notif
+		err       error
+		got       string
+		ownMethod string
+	}
+	sseMode0 := mode == "post-sse" || mode == "stateless"
 	var calls []*callT
 	var tasks []*sim.Task
 	for k := 0; k < nCalls; k++ {
 		cc := &callT{nonce: c.Nonce("n")}
-		for n := t.Draw(maxN + 1); n > 0; n-- {
-			cc.plan = append(cc.plan, c10Notif{Kind: []string{"progress", "log", "custom"}[t.Draw(3)], Size: t.Pick(0, 0, 10, 5000, 70000), Meta: t.Bool(50), SleepMs: t.Pick(0, 0, 0, 1, 3)})
+		if burst && k == 0 {
+			for n := maxN; n > 0; n-- {
+				cc.plan = append(cc.plan, c10Notif{Kind: []string{"progress", "log", "custom"}[t.Draw(3)], Size: t.Pick(0, 0, 10), Meta: t.Bool(20)})
+			}
+		} else {
+			lim := maxN
+			if burst {
+				lim = 6
+			}
+			for n := t.Draw(lim + 1); n > 0; n-- {
+				cc.plan = append(cc.plan, c10Notif{Kind: []string{"progress", "log", "custom"}[t.Draw(3)], Size: t.Pick(0, 0, 10, 5000, 70000), Meta: t.Bool(50), SleepMs: t.Pick(0, 0, 0, 1, 3)})
+			}
+		}
+		// a handler registered by the caller right before its call (while other calls of the same
+		// client are in flight) for a method only this call uses: the registration has returned
+		// before the call starts, so every such notification of the call must reach it
+		if k > 0 && sseMode0 && t.Bool(50) {
+			cc.ownMethod = fmt.Sprintf("notifications/own%d", k)
+			for i := range cc.plan {
+				if cc.plan[i].Kind == "custom" && t.Bool(70) {
+					cc.plan[i].Kind = "own"
+					cc.plan[i].Method = cc.ownMethod
+				}
+			}
 		}
 		calls = append(calls, cc)
 		tasks = append(tasks, s.Go(fmt.Sprintf("call%d", k), func() {
 			ctx, cancel := context.WithTimeout(context.Background(), 5*time.Minute)
 			defer cancel()
+			if cc.ownMethod != "" {
+				for i := c.T.Draw(90); i > 0; i-- {
+					s.Yield("registrar#wait")
+				}
+				cl.HTTP.RegisterNotificationHandler(cc.ownMethod, mk(cc.ownMethod))
+				c.mu.Lock()
+				registered[cc.ownMethod] = true
+				c.mu.Unlock()
+				s.Probe("c10.registered_before_own_call")
+			}
 			res, err := cl.API.CallTool(ctx, callToolReq("notify", map[string]interface{}{"nonce": cc.nonce, "plan": cc.plan}))
 			c.mu.Lock()
 			returned[cc.nonce] = true
@@ -198,6 +259,22 @@ func runC10(c *Ctx) {
 		}))
 	}
 	c.SetPlan("calls", calls)
+	// registrations of an unrelated method come and go while the calls run: they must not disturb
+	// what the handlers registered for the calls' methods receive
+	if sseMode0 && t.Bool(40) {
+		rounds := 5 + t.Draw(30)
+		c.SetPlan("registration_churn", rounds)
+		tasks = append(tasks, s.Go("churn", func() {
+			for i := 0; i < rounds; i++ {
+				cl.HTTP.RegisterNotificationHandler("notifications/churn", func(n *mcp.JSONRPCNotification) error { return nil })
+				s.Yield("churn#registered")
+				cl.HTTP.UnregisterNotificationHandler("notifications/churn")
+				for j := c.T.Draw(4); j > 0; j-- {
+					s.Yield("churn#idle")
+				}
+			}
+		}))
+	}
 	for _, a := range s.WaitTasks(20*time.Minute, tasks...) {
 		s.Violate("C10|stuck|"+mode, "%s did not return", a.Name)
 	}
@@ -241,8 +318,14 @@ func runC10(c *Ctx) {
 				s.Violate("C10|meta|"+mode, "call %s: notification %d: _meta got %s want %s", cc.nonce, i, jsonOf(hm), jsonOf(wm))
 			}
 		}
+		if overlapped[cc.nonce] {
+			s.Probe("c10.handlers_overlapped") // not demanded by the statement: order is judged at handler entry
+		}
 		if len(want) > 0 {
 			s.Probe("c10.calls_with_notifications")
+		}
+		if len(want) > 64 {
+			s.Probe("c10.bursts_over_64")
 		}
 	}
 	// raw id: lines of one SSE stream are pairwise distinct
